@@ -3,6 +3,7 @@
   bucket table) side by side; one request line → one answer line.
 
     N <TypeName> <hash> <cap> <thr> [R]  new session, configured from `HMap.plainTypes`     → ok
+    @i <line>   address slot i of the pool (default 0);   @i PAF j   slot i .PutAll(slot j);   @i TOF j   ToObject(ToBytes) copy
     P k v   A k v   AE k v   G k   CK k   CV v   R k   C   SZ IE IF   SM n   PA k=v,k=v,…|[]   SO asc|desc
     KS VS ES      enumerations, *sorted by key* (the order of a plain hash map is not observable)
     TB            hex of ToBytes (integer sessions)        TO <hex>   ToObject(hex) into the current map
@@ -12,6 +13,7 @@
 import Golib.HMap.Plain
 import Golib.HMap.Wire
 import Golib.HMap.Types
+import Golib.HMap.Multi
 import Driver.Common
 
 open HMap Drv
@@ -122,8 +124,7 @@ def newSess [DecidableEq K] (t : TypeDesc) (isEmpty : K → Bool)
   let d : PDesc K Int := { t.descOf isEmpty with addFreshNew := t.addFreshNew }
   { d := d, hash := hash, thr := thrOf tbl, spec := {}, conc := PMap.new (thrOf tbl) cap }
 
-def answer (st : St) (line : String) : St × String :=
-  let ws := (line.splitOn " ").filter (fun w => !w.isEmpty)
+def answer1 (st : St) (ws : List String) : St × String :=
   match ws with
   | "N" :: tn :: hk :: cap :: thr :: rest =>
     -- a trailing `R` selects the repaired descriptor (the harness sends it once a known finding no longer reproduces)
@@ -157,4 +158,33 @@ def answer (st : St) (line : String) : St × String :=
     | .ints s => let (s', o) := stepSess parseInt toString s ws; (.ints s', o)
     | .strs s => let (s', o) := stepSess parseStrKey showStrKey s ws; (.strs s', o)
 
-def main : IO Unit := mainLoop St.none answer
+/-- `dst.PutAll(src)`: every entry of the source, in the order its enumerator yields them, is put into the target -/
+def putAllFrom (src : St) (dst : St) (_ : Unit) : St × String :=
+  match dst, src with
+  | .ints d, .ints s =>
+    let l := s.conc.tab.entries
+    ({ d with spec := (PS.step d.d d.spec (.putAll l)).1, conc := (PMap.step d.hash d.thr d.d d.conc (.putAll l)).1 } |> St.ints, "u")
+  | .strs d, .strs s =>
+    let l := s.conc.tab.entries
+    ({ d with spec := (PS.step d.d d.spec (.putAll l)).1, conc := (PMap.step d.hash d.thr d.d d.conc (.putAll l)).1 } |> St.strs, "u")
+  | _, _ => (dst, "bad-op")
+
+/-- a pool of live containers: `@i <line>` addresses slot `i` (default 0); every other slot is untouched
+    (`HMap.poolStep_frame`).  `@i PAF j` = slot i .PutAll(slot j);  `@i TOF j` = slot i .ToObject(slot j .ToBytes()). -/
+def answer (pool : Array St) (line : String) : Array St × String :=
+  let ws := (line.splitOn " ").filter (fun w => !w.isEmpty)
+  let (i, ws) := match ws with
+    | w :: rest => if w.startsWith "@" then (((w.drop 1).toNat?).getD 0, rest) else (0, ws)
+    | [] => (0, [])
+  match ws with
+  | ["PAF", j] =>
+    match parseNat j with
+    | some j => poolStep (putAllFrom (pool.getD j St.none)) St.none pool i ()
+    | none => (pool, "bad-op")
+  | ["TOF", j] =>
+    match parseNat j, pool.getD ((parseNat j).getD 0) St.none with
+    | some _, .ints s => poolStep answer1 St.none pool i ["TO", hexOf (PMap.toBytes s.conc)]
+    | _, _ => (pool, "bad-op")
+  | _ => poolStep answer1 St.none pool i ws
+
+def main : IO Unit := mainLoop (Array.replicate 4 St.none) answer
